@@ -417,7 +417,7 @@ func diagMatches(d sourcebundle.Diagnostic, sev sourcebundle.DiagSeverity, summa
 
 func c12Builder(env *fw.Env, idx int, pairs bool) fw.Result {
 	r := env.Rand(idx)
-	w := gen.RandomWorld(r, gen.WorldOpts{MaxPkgs: 4, MaxReg: 2, MaxFinders: 2, MaxAdds: 3, Aliases: r.Chance(1, 3)})
+	w := gen.RandomWorld(r, gen.WorldOpts{MaxPkgs: 4, MaxReg: 2, MaxFinders: 2, MaxAdds: 3, Aliases: r.Chance(1, 3), OddAddrs: r.Chance(1, 2)})
 	c := computeClosure(&w)
 	res := fw.Result{Hash: fw.HashString("b" + worldKey(&w) + fmt.Sprint(pairs)), Case: worldDesc(&w), Class: "builder-faults"}
 	if c.Problem != "" {
@@ -478,7 +478,7 @@ func c12Builder(env *fw.Env, idx int, pairs bool) fw.Result {
 		case "fetch":
 			return []string{"error", "partial-then-error", "error-deadline", "error-canceled"}
 		case "find":
-			return []string{"error-diag", "warning-diag"}
+			return []string{"error-diag", "warning-diag", "error-diag-nowhere"}
 		default:
 			return []string{"error"}
 		}
@@ -545,7 +545,7 @@ func c12Builder(env *fw.Env, idx int, pairs bool) fw.Result {
 		}
 		// finder diagnostics must reach caller and tracer intact, with file names rewritten
 		for _, f := range fc.faults {
-			if f.Mode != "error-diag" && f.Mode != "warning-diag" {
+			if f.Mode != "error-diag" && f.Mode != "warning-diag" && f.Mode != "error-diag-nowhere" {
 				continue
 			}
 			reached := false
@@ -571,6 +571,39 @@ func c12Builder(env *fw.Env, idx int, pairs bool) fw.Result {
 			if addIdx >= len(br.Adds) {
 				return viol("diagnostic-lost", "fault %v: the Add call that ran the finder returned nothing", f)
 			}
+			if f.Mode != "error-diag" {
+				// a diagnostic that names no file at all
+				lsev, lsum := sourcebundle.DiagWarning, fmt.Sprintf("location-less warning #%d", f.At)
+				if f.Mode == "error-diag-nowhere" {
+					lsev, lsum = sourcebundle.DiagError, fmt.Sprintf("location-less finder error #%d", f.At)
+				}
+				var got sourcebundle.Diagnostic
+				for _, d := range br.Adds[addIdx].Diags {
+					if diagMatches(d, lsev, lsum, "no file to point at", f.At) {
+						got = d
+					}
+				}
+				if got == nil {
+					return viol("diagnostic-lost", "fault %v: the finder's %c diagnostic %q, which names no file, is missing (or altered) in the diagnostics returned by the Add call that ran it: %v", f, rune(lsev), lsum, describeDiags(br.Adds[addIdx].Diags))
+				}
+				if src := got.Source(); src.Subject != nil || src.Context != nil {
+					return viol("diagnostic-source-lost", "fault %v: a diagnostic without source ranges came back with some: %+v", f, src)
+				}
+				traced := false
+				for k, ds := range be.diagSeen {
+					for _, d := range ds {
+						if diagMatches(d, lsev, lsum, "no file to point at", f.At) && be.diagOwner[k] == br.Adds[addIdx].Tag {
+							traced = true
+						}
+					}
+				}
+				if !traced {
+					return viol("diagnostic-not-traced", "fault %v: the finder's diagnostic %q did not reach the tracer's Diagnostics callback", f, lsum)
+				}
+				if f.Mode == "error-diag-nowhere" {
+					continue
+				}
+			}
 			var hit sourcebundle.Diagnostic
 			for _, d := range br.Adds[addIdx].Diags {
 				if diagMatches(d, sev, sum, det, extra) {
@@ -581,15 +614,15 @@ func c12Builder(env *fw.Env, idx int, pairs bool) fw.Result {
 				return viol("diagnostic-lost", "fault %v: the finder's %c diagnostic %q is missing (or altered) in the diagnostics returned by the Add call that ran it: %v", f, rune(sev), sum, describeDiags(br.Adds[addIdx].Diags))
 			}
 			inTracer := false
-			for _, ds := range be.diagSeen {
+			for k, ds := range be.diagSeen {
 				for _, d := range ds {
-					if diagMatches(d, sev, sum, det, extra) {
+					if diagMatches(d, sev, sum, det, extra) && be.diagOwner[k] == br.Adds[addIdx].Tag {
 						inTracer = true
 					}
 				}
 			}
 			if !inTracer {
-				return viol("diagnostic-not-traced", "fault %v: the finder's diagnostic %q did not reach the tracer's Diagnostics callback", f, sum)
+				return viol("diagnostic-not-traced", "fault %v: the finder's diagnostic %q did not reach the Diagnostics callback of the tracer that came with the Add call (%s) which ran the finder", f, sum, br.Adds[addIdx].Tag)
 			}
 			// file name rewritten as a source address inside the analysed package
 			subj := hit.Source().Subject
